@@ -79,11 +79,31 @@ Definition textOf (src : bytes) (i : inline) : bytes := textOfChildren src i.
 
 (* visitInline / postInline *)
 Definition needsEscape (r : Z) : bool := existsb (Z.eqb r) [92;91;93;42;95;45;61;60;62;38;35;126;96].
-Definition fmtText (src : bytes) (setext : bool) (i : inline) : bytes :=
+(* a "+" at the start of a line, or a "." / ")" after one to nine digits at the start of a line, followed by a blank or
+   the end of the text, would be read back as a list marker (format.go: leadingDigits, endsListMarker) *)
+Definition endsListMarker (rest : bytes) : bool :=
+  match rest with [] => true | c :: _ => (c =? 32) || (c =? 9) || (c =? 10) || (c =? 13) end.
+Definition fmtText (src : bytes) (setext : bool) (dg : Z) (i : inline) : bytes :=
   let s := spanOf src i in
-  flat_map (fun irw => let '(ix, r, w) := irw in
-              if (r =? 10) && setext then [] else (if needsEscape r then [92] else []) ++ sub s ix (ix + w))
-           (runes (S (length s)) s 0).
+  snd (fold_left (fun st irw => let '(d, acc) := st in let '(ix, r, w) := irw in
+         if (r =? 10) && setext then (d, acc) else
+         let rest := from_ s (ix + w) in
+         let esc := needsEscape r || ((d =? 0) && (r =? 43) && endsListMarker rest) ||
+                    ((1 <=? d) && (d <=? 9) && ((r =? 46) || (r =? 41)) && endsListMarker rest) in
+         let d' := if (0 <=? d) && (48 <=? r) && (r <=? 57) then d + 1 else -1 in
+         (d', acc ++ (if esc then [92] else []) ++ sub s ix (ix + w)))
+       (runes (S (length s)) s 0) (dg, [])).
+(* leadingDigits over the previous siblings (nearest first) of a direct inline child of a block *)
+Fixpoint leadingDigits (src : bytes) (prevs : list inline) (n : Z) : Z :=
+  match prevs with
+  | [] => n
+  | p :: r =>
+    if (ikind p =? SoftLineBreakKind) || (ikind p =? HardLineBreakKind) then n
+    else if ikind p =? IndentKind then leadingDigits src r n
+    else if ikind p =? TextKind then
+      (if forallb (fun c => (48 <=? c) && (c <=? 57)) (spanOf src p) then leadingDigits src r (n + len (spanOf src p)) else -1)
+    else -1
+  end.
 Definition isShortcut (i : inline) : bool :=
   if negb ((ikind i =? LinkKind) || (ikind i =? ImageKind)) || (len (ikids i) =? 0) then false else
   match rev (ikids i) with
@@ -91,14 +111,14 @@ Definition isShortcut (i : inline) : bool :=
   | [] => false
   end.
 
-Fixpoint fmtI (fuel : nat) (src : bytes) (pbKind : Z) (w : fw) (i : inline) : fw :=
+Fixpoint fmtI (fuel : nat) (src : bytes) (pbKind : Z) (dg : Z) (w : fw) (i : inline) : fw :=
   match fuel with
   | O => w
   | S f =>
     let k := ikind i in
     if k =? LinkKind then
       let w := ws w [91] in
-      let w := fold_left (fmtI f src pbKind) (ikids i) w in
+      let w := fold_left (fmtI f src pbKind (-1)) (ikids i) w in
       let w := ws w [93] in
       let ref := linkReference i in
       if negb (len ref =? 0) then
@@ -114,7 +134,7 @@ Fixpoint fmtI (fuel : nat) (src : bytes) (pbKind : Z) (w : fw) (i : inline) : fw
         let w := match title with Some t => ws (ws (ws w [34]) (textOf src t)) [34] | None => w end in
         ws w [41]
     else if k =? TextKind then
-      if isCode pbKind then ws w (spanOf src i) else ws w (fmtText src (pbKind =? SetextHeadingKind) i)
+      if isCode pbKind then ws w (spanOf src i) else ws w (fmtText src (pbKind =? SetextHeadingKind) dg i)
     else if (k =? InfoStringKind) || (k =? LinkDestinationKind) || (k =? LinkLabelKind) || (k =? LinkTitleKind) then w
     else if negb ((0 <=? istart i) && (0 <=? iend i) && (istart i <=? iend i)) then w
     else ws w (spanOf src i)
@@ -130,7 +150,7 @@ Fixpoint fmtB (fuel : nat) (src : bytes) (w : fw) (idx : Z) (parent : option blo
     let parentTight := match parent with Some p => isTightList p | None => false end in
     let kidsOf (w : fw) : fw :=
       match bkids b with
-      | [] => fold_left (fun w i => fmtI (isize i) src k w i) (bik b) w
+      | [] => fst (fold_left (fun wp i => let '(w, prevs) := wp in (fmtI (isize i) src k (leadingDigits src prevs 0) w i, i :: prevs)) (bik b) (w, []))
       | ks => fst (fold_left (fun wi c => let '(w, i) := wi in (fmtB f src w i (Some b) c, i + 1)) ks (w, 0))
       end in
     let around (w : fw) (ind : bytes) (post : fw -> fw) : fw := post (pop (kidsOf (push w ind))) in
